@@ -152,6 +152,10 @@ def part_vm(chk, drv, recs):
     crafted = [HOSTILE, b'ccollections\nOrderedDict\n)R.', pickle.dumps([(1, 'a'), (2, b'\xff')], protocol=2), pickle.dumps({'k': [1, 2.5, None, True]}, protocol=4),
                b'\x80\x04\x95\x1a\x00\x00\x00\x00\x00\x00\x00\x8c\x08colorsys\x94\x8c\x0argb_to_hsv\x94\x93\x94.',
                b'(S\'x\'\nicolorsys\nrgb_to_hsv\n.', pickle.dumps((1, 2, 3), protocol=0), b'c', b'cos\n', b'\x93.', b'']
+    # a Python 2 str with a non-ASCII byte (undecodable under the default encoding of the older controllers) or an undecodable module
+    # name in front of the hostile global: whatever the unpickler does about the decoding error, it must not go on unrestricted
+    crafted += [b'(U\x04Caf\xe9' + HOSTILE[:-1] + b't.', b'(U\x02\xff\xfe' + b'ccollections\nOrderedDict\n)R' + HOSTILE[:-1] + b't.',
+                b'c\xff\xfe\nx\n.' , b'(c\xe9\nx\n' + HOSTILE[:-1] + b't.', b'(T\x03\x00\x00\x00\xe9\xe9\xe9' + HOSTILE[:-1] + b't.']
     for _ in range(30):
         base = rng.choice(crafted[:6])
         b = bytearray(base)
@@ -175,7 +179,8 @@ def part_vm(chk, drv, recs):
         return
     hexpair = list
     unhex = lambda ev: [[bytes.fromhex(x).decode('latin1'), bytes.fromhex(y).decode('latin1')] for x, y in ev]
-    modes = [('latin1', None)] + ([('safe:latin1', [hexpair(g) for g in shipped])] if shipped is not None else [])
+    modes = [('latin1', None)] + ([('safe:latin1', [hexpair(g) for g in shipped]), ('safe:ASCII', [hexpair(g) for g in shipped]),
+                                  ('safe:bytes', [hexpair(g) for g in shipped])] if shipped is not None else [])
     for enc, allow in modes:
         real = run_loads([(enc, b) for _, b in payloads])
         model = drv.run([{'op': 'pickle.events', 'bytes': b.hex(), 'allow': allow} for _, b in payloads])
